@@ -771,13 +771,20 @@ def snark(fn):
 
         if kwargs: raise ValueError("@snark-decorated functions cannot have keyword arguments")
 
-        argscopy = for_each_in(lambda x: PubVal(x) if isinstance(x,int) else x, args)
-        argscopy = for_each_in(lambda x: PubValFxp(x) if isinstance(x,float) else x, argscopy)
-        argscopy = for_each_in(lambda x: PubValBool(x) if isinstance(x,bool) else x, argscopy)
+        # convert in a single pass, so that public values are created in positional order whatever their types
+        def convert_in(x):
+            if isinstance(x,bool): return PubValBool(x)
+            if isinstance(x,int): return PubVal(x)
+            if isinstance(x,float): return PubValFxp(x)
+            return x
+
+        def convert_out(x):
+            if isinstance(x,LinComb) or isinstance(x,LinCombFxp) or isinstance(x,LinCombBool): return x.val()
+            return x
+
+        argscopy = for_each_in(convert_in, args)
         ret = fn(*argscopy, **kwargs)
-        retcopy = for_each_in(lambda x: x.val() if isinstance(x,LinComb) else x, ret)
-        retcopy = for_each_in(lambda x: x.val() if isinstance(x,LinCombFxp) else x, retcopy)
-        retcopy = for_each_in(lambda x: x.val() if isinstance(x,LinCombBool) else x, retcopy)
+        retcopy = for_each_in(convert_out, ret)
 
         return retcopy
         
